@@ -2,6 +2,7 @@ package monc
 
 import (
 	"context"
+	"errors"
 
 	"github.com/zeromicro/go-zero/core/logx"
 	"github.com/zeromicro/go-zero/core/stores/cache"
@@ -130,11 +131,18 @@ func (mm *Model) FindOneAndDeleteNoCache(ctx context.Context, v, filter any,
 // FindOneAndReplace replaces the document with given filter with replacement, and unmarshals it into v.
 func (mm *Model) FindOneAndReplace(ctx context.Context, key string, v, filter any,
 	replacement any, opts ...*mopt.FindOneAndReplaceOptions) error {
-	if err := mm.Model.FindOneAndReplace(ctx, v, filter, replacement, opts...); err != nil {
+	err := mm.Model.FindOneAndReplace(ctx, v, filter, replacement, opts...)
+	// with upsert and no matching document, the document is inserted
+	// and the driver reports mongo.ErrNoDocuments, the cache must be invalidated as well.
+	if err != nil && !errors.Is(err, mongo.ErrNoDocuments) {
 		return err
 	}
 
-	return mm.DelCache(ctx, key)
+	if e := mm.DelCache(ctx, key); e != nil {
+		return e
+	}
+
+	return err
 }
 
 // FindOneAndReplaceNoCache replaces the document with given filter with replacement, and unmarshals it into v.
@@ -146,11 +154,18 @@ func (mm *Model) FindOneAndReplaceNoCache(ctx context.Context, v, filter any,
 // FindOneAndUpdate updates the document with given filter with update, and unmarshals it into v.
 func (mm *Model) FindOneAndUpdate(ctx context.Context, key string, v, filter any,
 	update any, opts ...*mopt.FindOneAndUpdateOptions) error {
-	if err := mm.Model.FindOneAndUpdate(ctx, v, filter, update, opts...); err != nil {
+	err := mm.Model.FindOneAndUpdate(ctx, v, filter, update, opts...)
+	// with upsert and no matching document, the document is inserted
+	// and the driver reports mongo.ErrNoDocuments, the cache must be invalidated as well.
+	if err != nil && !errors.Is(err, mongo.ErrNoDocuments) {
 		return err
 	}
 
-	return mm.DelCache(ctx, key)
+	if e := mm.DelCache(ctx, key); e != nil {
+		return e
+	}
+
+	return err
 }
 
 // FindOneAndUpdateNoCache updates the document with given filter with update, and unmarshals it into v.
